@@ -594,8 +594,13 @@ def e2e_case_result(case):
     if k1 == "exc":
         return True, None
     if not _same(o1, o2):
-        a = np.concatenate([np.asarray(x, dtype=float).ravel() for x in o1])[:6].tolist()
-        b = np.concatenate([np.asarray(x, dtype=float).ravel() for x in o2])[:6].tolist()
+        a = np.concatenate([np.asarray(x, dtype=float).ravel() for x in o1])
+        b = np.concatenate([np.asarray(x, dtype=float).ravel() for x in o2])
+        if a.shape == b.shape:
+            diff = np.argwhere(~((a == b) | (np.isnan(a) & np.isnan(b)))).ravel()[:4]
+            a, b = a[diff].tolist(), b[diff].tolist()
+        else:
+            a, b = a[:4].tolist(), b[:4].tolist()
         return trivial, (f"C10:{name}:clip-invariance",
                          f"{name}(D, seed={case['seed']}) != {name}(clip(D), seed={case['seed']}) with bounds "
                          f"({case.get('lower')}, {case.get('upper')}) / norm {case.get('c')}: {a} vs {b}")
